@@ -293,6 +293,42 @@ def run(w: World, rep: Report):
     rep.check('C08.T', 'classes.Stack.put|bytes-only', ok, line=sp.node.lineno, file='tapescript/classes.py',
               why='' if ok else 'Stack.put no longer rejects non-bytes items before storing them')
 
+    # R4: the accessor of the interpreter-owned values looks them up under the decoded (str) name only.  If it also
+    # tries the raw bytes key, a script that wrote b'timestamp' / b'sigfield1' answers for the protected entry.
+    rep.rule('C08.R4', 'OP_GET_VALUE consults the cache only under the str it decoded from its operand: no lookup or '
+             'membership test with a key that may be bytes (script-writable) on any path', floor=2)
+    gv = w.handler_for('OP_GET_VALUE')
+    gcfg, gk = w.cfg(gv), w.kinds(gv)
+    cname = gv.params[2]
+    n4 = 0
+    for nd in gcfg.nodes:
+        if nd.ast is None or nd.kind == 'except':
+            continue
+        for x in ast.walk(nd.ast):
+            keyexpr = None
+            if isinstance(x, ast.Subscript) and isinstance(x.value, ast.Name) and x.value.id == cname and \
+                    isinstance(x.ctx, ast.Load):
+                keyexpr, what = x.slice, 'lookup'
+            elif isinstance(x, ast.Compare) and len(x.ops) == 1 and isinstance(x.ops[0], (ast.In, ast.NotIn)) and \
+                    isinstance(x.comparators[0], ast.Name) and x.comparators[0].id == cname:
+                keyexpr, what = x.left, 'membership test'
+            elif isinstance(x, ast.Call) and isinstance(x.func, ast.Attribute) and x.func.attr == 'get' and \
+                    isinstance(x.func.value, ast.Name) and x.func.value.id == cname and x.args:
+                keyexpr, what = x.args[0], 'lookup'
+            if keyexpr is None:
+                continue
+            n4 += 1
+            try:
+                kc, desc = key_class(w, gk.of(keyexpr, nd), 'functions')
+            except Exception:
+                kc, desc = 'unknown', 'not classifiable'
+            ok = kc == 'str'
+            rep.check('C08.R4', f'functions.{gv.name}|{what}@{n4}', ok, line=getattr(x, 'lineno', gv.node.lineno),
+                      file='tapescript/functions.py',
+                      why='' if ok else f'the {what} uses a key that is or may be {desc}: a bytes entry written by a script can '
+                      f'stand in for the interpreter-owned value of the same spelling')
+    if n4 < 2:
+        raise AnalysisError('OP_GET_VALUE: cache lookups not found')
     rep.explanation = (
         'Non-interference of scripts with str-keyed cache entries, decided as: every statement that '
         'can mutate the run\'s cache in any function reachable from run_tape (interprocedural '
